@@ -14,6 +14,16 @@ BASELINE_OFF = (
 
 # id -> (level, technique, level text, level note, design ref)
 T = {
+    "C12": (
+        "exploration",
+        "exhaustive enumeration of swatch sets x ground-truth maps x balance classes x every ordered pair/triple of staged modes on the real balances, stage balances re-fitted independently",
+        "Complete product of deterministic well-conditioned swatch sets (4x6x3, 24x3, 6x3) x ground-truth maps (identity, diagonal, linear, affine, one non-affine) x "
+        "White/Color/Affine/Adaptive balances x start balance x entry point; all 36 ordered pairs and triples of {diagonal, linear, affine} stages with fixed and "
+        "moving targets, the accumulated scaling/translation compared with the composition of independently re-fitted stage balances; the same inside "
+        "ColorCorrection.correct_array on a synthetic colour-checker image.",
+        "Trusted: the stage classes' deterministic Powell fits for the stage references (lstsq only as a lower bound); maps within 0.5 of the identity; recovery tolerance 1e-6 (2e-4 through float32 swatch extraction).",
+        "DESIGN.md §3 C12",
+    ),
     "C10": (
         "model_checking",
         "explicit-state BFS over live (correction, input) pairs with full-content hashing, every transition a real correction call compared with a never-used correction applied to a private raw copy",
